@@ -38,7 +38,7 @@ fn parse_qname(msg: &[u8]) -> Option<(String, usize)> {
     Some((labels.join("."), pos))
 }
 
-async fn serve(sock: UdpSocket, table: Arc<Mutex<HashMap<String, Vec<Ipv4Addr>>>>, queries: Arc<Mutex<Vec<String>>>) {
+async fn serve(sock: Arc<UdpSocket>, table: Arc<Mutex<HashMap<String, Vec<Ipv4Addr>>>>, queries: Arc<Mutex<Vec<String>>>) {
     let mut buf = [0u8; 1500];
     loop {
         let Ok((n, from)) = sock.recv_from(&mut buf).await else { break };
@@ -71,7 +71,12 @@ async fn serve(sock: UdpSocket, table: Arc<Mutex<HashMap<String, Vec<Ipv4Addr>>>
             resp.extend_from_slice(&4u16.to_be_bytes());
             resp.extend_from_slice(&a.octets());
         }
-        let _ = sock.send_to(&resp, from).await;
+        // answer after a short pause, from a task of its own: concurrent lookups really overlap
+        let sock2 = sock.clone();
+        tokio::spawn(async move {
+            tokio::time::sleep(std::time::Duration::from_millis(2)).await;
+            let _ = sock2.send_to(&resp, from).await;
+        });
     }
 }
 
@@ -86,7 +91,7 @@ pub fn dns() -> Result<&'static Dns, Fail> {
             let ip = Ipv4Addr::new(127, (std::process::id() % 200 + 20) as u8, 253, 53);
             let sock = UdpSocket::bind(SocketAddr::new(ip.into(), 0)).await.map_err(|e| format!("fake DNS bind: {e}"))?;
             let addr = sock.local_addr().map_err(|e| e.to_string())?;
-            tokio::spawn(serve(sock, t2, q2));
+            tokio::spawn(serve(Arc::new(sock), t2, q2));
             anytls_rs::util::set_custom_dns_servers(&[addr.to_string()]).await.map_err(|e| format!("set_custom_dns_servers: {e}"))?;
             Ok::<SocketAddr, String>(addr)
         })?;
